@@ -67,7 +67,7 @@ func docColSort(c string) *Sort {
 	return SInt
 }
 
-var nullB = Term{"NULLB", SBytes}
+var nullB = mkT("NULLB", SBytes)
 
 // argToSQL converts a Go argument (inside an `any`) to a SQL value.
 func (e *Engine) argToSQL(st *State, v Value) SQLVal {
@@ -156,12 +156,12 @@ func (c *evalCtx) col(name, tbl string) SQLVal {
 	if c.row.S != "" && (tbl == "" || strings.EqualFold(tbl, "documents")) {
 		switch ln {
 		case "collection":
-			return SQLVal{T: App(SInt, "d.coll", c.id), Null: TFalse}
+			return SQLVal{T: Acc(SInt, "d.coll", c.id), Null: TFalse}
 		case "key":
-			return SQLVal{T: App(SStr, "d.key", c.id), Null: TFalse}
+			return SQLVal{T: Acc(SStr, "d.key", c.id), Null: TFalse}
 		}
 		if acc, ok := docCols[ln]; ok {
-			t := App(docColSort(ln), acc, c.row)
+			t := Acc(docColSort(ln), acc, c.row)
 			if t.Sort == SBytes {
 				return SQLVal{T: t, Null: App(SBool, "b.isnil", t)}
 			}
@@ -409,13 +409,13 @@ func rebuildRow(old Term, vals map[string]Term) Term {
 		if v, ok := vals[col]; ok {
 			args = append(args, v)
 		} else {
-			args = append(args, App(docColSort(col), docCols[col], old))
+			args = append(args, Acc(docColSort(col), docCols[col], old))
 		}
 	}
 	return App(SRow, "mkRow", args...)
 }
 
-func rowPresent(r Term) Term { return App(SBool, "r.present", r) }
+func rowPresent(r Term) Term { return Acc(SBool, "r.present", r) }
 
 // docDefaults returns default column terms from schema.sql.
 func (e *Engine) docDefault(col string) Term {
@@ -468,7 +468,9 @@ func handleKind(v Value) string {
 func (e *Engine) dbError(st *State) Value {
 	// an SQLite error with a code other than BUSY/LOCKED (A-BUSY)
 	code := e.fresh(st, "sqlite.code", SInt)
-	st.assume(And(Not(Eq(code, IntLit(5))), Not(Eq(code, IntLit(6))), Ge(code, IntLit(1)), Le(code, IntLit(255))))
+	st.assume(Not(Eq(code, IntLit(5))))
+	st.assume(Not(Eq(code, IntLit(6))))
+	st.assume(And(Ge(code, IntLit(1)), Le(code, IntLit(255))))
 	t := e.sqliteErrorType()
 	if t == nil {
 		return e.sentinelErr(st, "dberror")
@@ -653,8 +655,8 @@ func (e *Engine) execStmt(st *State, stmt *SQLStmt, params *sqlParams, handle, t
 			// AUTOINCREMENT: the new id was never used before (assumed): the collection starts empty
 			id := e.fresh(st, "newcoll.id", SInt)
 			st.assume(Gt(id, IntLit(0)))
-			st.assume(Term{fmt.Sprintf("(forall ((k Str)) (! (not (r.present (select %s (mkId %s k)))) :pattern ((select %s (mkId %s k)))))",
-				st.g.Docs.S, id.S, st.g.Docs.S, id.S), SBool})
+			st.assume(mkT(fmt.Sprintf("(forall ((k Str)) (! (not (r.present (select %s (mkId %s k)))) :pattern ((select %s (mkId %s k)))))",
+				st.g.Docs.S, id.S, st.g.Docs.S, id.S), SBool))
 			st.g.CollLastCas = Store(st.g.CollLastCas, id, IntLit(0))
 			one := IntLit(1)
 			return e.newResult(st, &one, &id), TFalse
@@ -682,8 +684,8 @@ func (e *Engine) execStmt(st *State, stmt *SQLStmt, params *sqlParams, handle, t
 			cid := App(SInt, "collid", scope.T, name.T)
 			e.needCollid = true
 			nd := e.fresh(st, "docs.drop", SDocs)
-			st.assume(Term{fmt.Sprintf("(forall ((i DocId)) (! (= (select %s i) (ite (= (d.coll i) %s) ABSENTROW (select %s i))) :pattern ((select %s i))))",
-				nd.S, cid.S, st.g.Docs.S, nd.S), SBool})
+			st.assume(mkT(fmt.Sprintf("(forall ((i DocId)) (! (= (select %s i) (ite (= (d.coll i) %s) ABSENTROW (select %s i))) :pattern ((select %s i))))",
+				nd.S, cid.S, st.g.Docs.S, nd.S), SBool))
 			st.g.Docs = nd
 			info.CollTerm = cid
 			st.addTrace(TraceEv{Kind: "dropcoll", Terms: map[string]Term{"cid": cid}})
@@ -737,7 +739,7 @@ func (e *Engine) execDocs(st *State, c *evalCtx, stmt *SQLStmt, info *StmtInfo) 
 			cond := And(rowPresent(old), c.where(andExprs(rest)))
 			var nrow Term
 			if stmt.Kind == "delete" {
-				nrow = Term{"ABSENTROW", SRow}
+				nrow = mkT("ABSENTROW", SRow)
 			} else {
 				var err error
 				nrow, err = c.applySets(old, stmt.Sets)
@@ -752,13 +754,13 @@ func (e *Engine) execDocs(st *State, c *evalCtx, stmt *SQLStmt, info *StmtInfo) 
 		}
 		// bulk
 		nd := e.fresh(st, "docs.bulk", SDocs)
-		iv := Term{"i", SDocId}
+		iv := mkT("i", SDocId)
 		old := Select(docs, iv, SRow)
 		c.row, c.id = old, iv
 		cond := And(rowPresent(old), c.where(stmt.Where))
 		var nrow Term
 		if stmt.Kind == "delete" {
-			nrow = Term{"ABSENTROW", SRow}
+			nrow = mkT("ABSENTROW", SRow)
 		} else {
 			var err error
 			nrow, err = c.applySets(old, stmt.Sets)
@@ -767,8 +769,8 @@ func (e *Engine) execDocs(st *State, c *evalCtx, stmt *SQLStmt, info *StmtInfo) 
 				return nil, TFalse
 			}
 		}
-		st.assume(Term{fmt.Sprintf("(forall ((i DocId)) (! (= (select %s i) %s) :pattern ((select %s i))))",
-			nd.S, Ite(cond, nrow, old).S, nd.S), SBool})
+		st.assume(mkT(fmt.Sprintf("(forall ((i DocId)) (! (= (select %s i) %s) :pattern ((select %s i))))",
+			nd.S, Ite(cond, nrow, old).S, nd.S), SBool))
 		st.g.Docs = nd
 		info.Keyed = false
 		// number of rows changed: uninterpreted count
@@ -904,14 +906,14 @@ func (e *Engine) queryRow(st *State, stmt *SQLStmt, params *sqlParams, handle, t
 			c.row, c.id = Select(st.g.Docs, wit, SRow), wit
 			wv := c.eval(stmt.Sel[0].Expr.Args[0])
 			wcond := And(rowPresent(c.row), c.where(stmt.Where))
-			iv := Term{"i", SDocId}
+			iv := mkT("i", SDocId)
 			c.row, c.id = Select(st.g.Docs, iv, SRow), iv
 			av := c.eval(stmt.Sel[0].Expr.Args[0])
 			acond := And(rowPresent(c.row), c.where(stmt.Where))
 			if !wv.Any && !av.Any {
 				st.assume(Implies(Not(isnull), And(wcond, Eq(m, wv.T))))
-				st.assume(Term{fmt.Sprintf("(forall ((i DocId)) (! (=> %s (and (not %s) (<= %s %s))) :pattern ((select %s i))))",
-					acond.S, isnull.S, m.S, av.T.S, st.g.Docs.S), SBool})
+				st.assume(mkT(fmt.Sprintf("(forall ((i DocId)) (! (=> %s (and (not %s) (<= %s %s))) :pattern ((select %s i))))",
+					acond.S, isnull.S, m.S, av.T.S, st.g.Docs.S), SBool))
 			}
 			rr.Found = TTrue
 			rr.Cols = []SQLVal{{T: m, Null: isnull}}
